@@ -1,0 +1,73 @@
+//go:build verif
+
+package jrpc2
+
+import (
+	"sort"
+	"sync/atomic"
+)
+
+// This file is compiled only with the "verif" build tag. It lets an external
+// verification harness observe (never change) internal state at quiescent
+// points and yield the processor at named scheduling points.
+
+var verifHook atomic.Pointer[func(site, key string)]
+
+// SetVerifHook installs f to be called at each scheduling point; nil removes it.
+func SetVerifHook(f func(site, key string)) {
+	if f == nil {
+		verifHook.Store(nil)
+		return
+	}
+	verifHook.Store(&f)
+}
+
+func verifPoint(site string, key []byte) {
+	if f := verifHook.Load(); f != nil {
+		(*f)(site, string(key))
+	}
+}
+
+func verifPointS(site, key string) {
+	if f := verifHook.Load(); f != nil {
+		(*f)(site, key)
+	}
+}
+
+// VerifServerSnapshot reports the reserved request IDs, the outstanding
+// callback IDs, the number of queued inbound batches, and whether s is running.
+func VerifServerSnapshot(s *Server) (reserved, callbacks []string, queued int, running bool) {
+	s.mu.Lock()
+	defer s.mu.Unlock()
+	for id := range s.used {
+		reserved = append(reserved, id)
+	}
+	for id := range s.call {
+		callbacks = append(callbacks, id)
+	}
+	sort.Strings(reserved)
+	sort.Strings(callbacks)
+	return reserved, callbacks, s.inq.Len(), s.ch != nil
+}
+
+// VerifClientSnapshot reports the IDs of pending requests and whether c has stopped.
+func VerifClientSnapshot(c *Client) (pending []string, stopped bool) {
+	c.mu.Lock()
+	defer c.mu.Unlock()
+	for id := range c.pending {
+		pending = append(pending, id)
+	}
+	sort.Strings(pending)
+	return pending, c.err != nil
+}
+
+// VerifServersActive reports the current value of the servers_active gauge.
+func VerifServersActive() int64 { return serversActiveGauge.Value() }
+
+// verifKey identifies a batch of tasks by the parameters of its first member.
+func (ts tasks) verifKey() string {
+	if len(ts) == 0 {
+		return ""
+	}
+	return string(ts[0].hreq.params)
+}
